@@ -31,6 +31,8 @@ Proof.
   - apply andb_true_iff in H; destruct H as [H1 H2].
     apply Nat.eqb_eq in H1; apply Nat.eqb_eq in H2; subst; reflexivity.
   - apply andb_true_iff in H; destruct H as [H1 H2].
+    apply Nat.eqb_eq in H1; apply Nat.eqb_eq in H2; subst; reflexivity.
+  - apply andb_true_iff in H; destruct H as [H1 H2].
     apply N.eqb_eq in H1; apply osig_eqb_sound in H2; subst; reflexivity.
 Qed.
 
